@@ -16,6 +16,32 @@ IO_METHODS = {"read": 1, "write": 1, "close_read": 0, "close_write": 0, "wait": 
 CONTROL = {"RIO_WAIT": ("wait", "result"), "RIO_KILL": ("kill", "None"), "RIO_REMOTEADDRESS": ("remoteaddress", "result"), "RIO_CLOSE_WRITE": ("close_write", "None")}
 
 
+def check_socket_halfclose(ctx: Ctx, oid: str) -> None:
+    """SocketIO.close_read / close_write shut down exactly their own direction (socket.SHUT_RD = 0 / SHUT_WR = 1): Gateway.exit()
+    closes only the writing side and keeps reading what the worker still sends -- as a pipe transport does (shared: C16.i, C02.n)"""
+    repo = ctx.repo
+    import socket as _socket
+    with ctx.obligation(oid, "socket-halfclose") as ob:
+        want = {"close_read": _socket.SHUT_RD, "close_write": _socket.SHUT_WR}
+        ci = repo.cls("SocketIO")
+        for mname, direction in want.items():
+            m = ci.methods.get(mname)
+            ob.require(m is not None, f"SocketIO.{mname} vanished")
+            m = repo.func(m.qualname)
+            sh = [c for c in repo.calls_in(m) if callee_attr(c) == "shutdown"]
+            vals = []
+            for c in sh:
+                v = repo.fold_in(c.args[0], m) if c.args else UNKNOWN
+                if v is UNKNOWN and c.args and unparse(c.args[0]).split(".")[-1] in ("SHUT_RD", "SHUT_WR", "SHUT_RDWR"):
+                    v = getattr(_socket, unparse(c.args[0]).split(".")[-1])
+                vals.append(v)
+            ob.site(m, sh[0] if sh else m.node, f"SocketIO.{mname} -> sock.shutdown({direction})", values=[repr(v) for v in vals])
+            if vals != [direction]:
+                ob.violation(m, sh[0] if sh else m.node, f"SocketIO.{mname} does not shut down exactly its own direction (expected shutdown({direction}), found {vals}): after "
+                                                         "Gateway.exit() the initiator stops reading (or keeps writing) on a socket gateway, unlike on the other transports",
+                             construct=f"{mname}: shutdown{tuple(vals)}")
+
+
 def check(ctx: Ctx) -> None:
     repo = ctx.repo
     ctx.decides = ("the control codes ProxyIO sends are exactly those the forwarder's dispatcher handles, each arm performs the matching operation on "
@@ -179,4 +205,5 @@ def check(ctx: Ctx) -> None:
     # kill/wait of a hung worker must work through the proxy as it does locally (order of join and wait, kill on timeout)
     from .C05 import check_kill_on_timeout
     check_kill_on_timeout(ctx, "C16.h")
+    check_socket_halfclose(ctx, "C16.i")
 
